@@ -1,5 +1,10 @@
 package bufcheck_test
 
+// Replay harness for the C03 / C04 obligations (injected into private/bufpkg/bufcheck with go test -overlay).
+// Three parts: (1) `...[format-matches-args]` and (2) `...[in-current-file]`, described next, and (3) for every
+// other obligation a catalogue of (previous, current) schema pairs with an oracle written from the property
+// texts and the rule documentation (see "Catalogue replay" below).
+//
 // Replay for C03 obligations `...#pre@...AddProtosourceAnnotation[format-matches-args]` (go test -overlay):
 // runs `buf breaking` on every previous/current pair of the package's testdata and reports every
 // annotation whose message carries fmt's bad-directive marker "%!" (the format string of the rule
